@@ -164,6 +164,11 @@ class FakeTarget(TargetMixin, Maintainable):
             ScriptAction(r, self._end)()
 
 
+def sstate(v):
+    """rendering of a scheduler state that has been entered (None is state number 0)"""
+    return '0' if v is None else ival(v)
+
+
 class SchedX(ActionScheduler):
     _vrunner = None
     _vidx = None
@@ -171,7 +176,7 @@ class SchedX(ActionScheduler):
     def default_action(self, obj, time, new_state):
         # the scheduler's own state must already be the new one while its actions run
         stale = '' if self.current_state == new_state else ' stale-state'
-        self._vrunner.results.append(f'act {self._vidx} {obj.k} {ticks(time)} {ival(new_state)} -' + stale)
+        self._vrunner.results.append(f'act {self._vidx} {obj.k} {ticks(time)} {sstate(new_state)} -' + stale)
 
 
 class Obj:
@@ -185,7 +190,20 @@ class Var:
 
     def __init__(self, k=0):
         import collections
-        self.x = [0] if k % 2 == 0 else collections.deque([0])
+        self.x = [[0], collections.deque([0]), Box(0)][k % 3]
+
+
+class Box:
+    """a mutable record of an ordinary class (hashable by identity, modified in place): a probe must copy it"""
+
+    def __init__(self, v):
+        self.v = v
+
+    def __getitem__(self, i):
+        return self.v
+
+    def __setitem__(self, i, v):
+        self.v = v
 
 
 class FalsyOverride:
@@ -402,7 +420,8 @@ class FullRunner(Runner):
         elif t == 'sched':
             kv = kvs(toks[1:])
             i = len(self.scheds)
-            tt = [(int(a) / self.tick, int(b)) for a, b in (e.split(':') for e in plist(kv.get('tt', '-')))]
+            # state number 0 is the object None (a legal state: a state can be any object)
+            tt = [(int(a) / self.tick, (None if int(b) == 0 else int(b))) for a, b in (e.split(':') for e in plist(kv.get('tt', '-')))]
             args = {}
             if kv.get('cyc', 'def') != 'def':
                 args['is_cyclical'] = kv['cyc'] == '1'
@@ -422,13 +441,13 @@ class FullRunner(Runner):
                 for v in plist(kv.get('vars', '-')):
                     self.set_var(int(v), self.svars[int(v)].x[0] if int(v) < len(self.svars) else 0)
                     probes.append(Probe(lambda tgt: tgt.x, self.svars[int(v)]))
-                s = PeriodicSensor(int(kv.get('interval', '16')) / self.tick, probes, f'N{i}', **args)
+                s = PeriodicSensor(int(kv.get('interval', '16')) / self.tick, probes, f'N{i - i % 2}', **args)
             else:
                 probes = [Probe((lambda tgt: tgt.quality) if a == '0' else (lambda tgt: tgt.value), None)
                           for a in plist(kv.get('attrs', '-'))]
                 if kv.get('n', 'def') != 'def':
                     args['sensing_interval'] = int(kv['n'])
-                s = OutputPartSensor(self.devs[int(kv['proc'])], probes, name=f'N{i}', **args)
+                s = OutputPartSensor(self.devs[int(kv['proc'])], probes, name=f'N{i - i % 2}', **args)
             runner = self
             for c in range(int(kv.get('cbs', '0'))):
                 def on_sense(sensor, time, data, c=c, i=i):
@@ -455,7 +474,7 @@ class FullRunner(Runner):
 
     def sval(self, x):
         import collections
-        if isinstance(x, (list, collections.deque)):
+        if isinstance(x, (list, collections.deque, Box)):
             return ival(x[0])
         return ival(x)
 
@@ -629,7 +648,7 @@ class FullRunner(Runner):
 
                 def ovr(sched, ob, time, state, o=o):
                     ok = sched is s
-                    runner.results.append(f'act {s._vidx} {ob.k} {ticks(time)} {ival(state)} {o}'
+                    runner.results.append(f'act {s._vidx} {ob.k} {ticks(time)} {sstate(state)} {o}'
                                           + ('' if ok else ' badargs')
                                           + ('' if sched.current_state == state else ' stale-state'))
             if ovr is not None and k % 2 == 1:
@@ -680,7 +699,7 @@ class FullRunner(Runner):
             tn = self.tname_map()
             return f'rec {label} {names.get(sub, "?")} {ticks(dp[0])} {tn.get(dp[1], "?")} {ival(dp[2])} {ival(dp[3])}'
         if label == 'schedule_update':
-            return f'rec schedule_update {names.get(sub, "?")} {ticks(dp[0])} {ival(dp[1])}'
+            return f'rec schedule_update {names.get(sub, "?")} {ticks(dp[0])} {sstate(dp[1])}'
         return f'rec {label} ? {dp}'
 
     def name_map(self):
@@ -827,7 +846,8 @@ class FullRunner(Runner):
                      f'val={ival(m.value)} vh={len(m.value_history)}')
         for i, s in enumerate(self.scheds):
             reg = jn(';', (f'{ob.k}:{"-" if a is None else getattr(a, "fn", a).__defaults__[0]}' for ob, a in s._registered_objects.items()))
-            o.append(f's {i} state={ival(s.current_state)} reg={reg}')
+            started = getattr(s, '_env', None) is not None
+            o.append(f's {i} state={sstate(s.current_state) if started else ival(s.current_state)} reg={reg}')
         for i, s in enumerate(self.sensors):
             data = jn('|', (jn(';', (self.sval(x) for x in s.data[p])) for p in s._probes))
             tm = jn(';', (ticks(x) for x in s.data.get('time', [])))
